@@ -309,13 +309,16 @@ int parsec_vpmap_init_from_file(const char *filename)
             }
         } else if( line[0] == ':' ) {
             /* no target proc specified, applies to all. */
+            rest_of_line = line;
         } else {
             parsec_warning("malformed line %s in vpmap description %s.", line, filename);
             continue;
         }
         /* Add the current vpmap description to the local_vpmap */
         parsec_nbvp++;
-        if( NULL == local_vpmap ) {
+        /* one description per line of local_vpmap, without line terminators */
+        rest_of_line[strcspn(rest_of_line, "\r\n")] = '\0';
+        if( NULL != local_vpmap ) {
             asprintf(&next_string, "%s\n%s", local_vpmap, rest_of_line);
             free(local_vpmap);
         } else {
@@ -323,11 +326,13 @@ int parsec_vpmap_init_from_file(const char *filename)
         }
         local_vpmap = next_string;
     }
+    free(line);
     fclose(f);
 
     if( 0 == parsec_nbvp ) {
         /* If no description is available for the process, create one single-thread VP */
         parsec_inform("No VP parameter for the process %i: create one VP (single thread, unbound)", rank);
+        parsec_nbvp = -1;  /* no map has been defined: let the flat map be built */
         return parsec_vpmap_init_from_flat(-1);
     }
     /* We have some VP descriptions */
@@ -634,7 +639,9 @@ static int parse_binding_parameter(int vp, int nbth, char * binding) {
             for (ht=0; ht < nbht ; ht++){
                 parsec_vpmap[vp].threads[t+ht].nbcores = 1;
                 parsec_vpmap[vp].threads[t+ht].cpuset = HWLOC_ALLOC();
-                HWLOC_SET(parsec_vpmap[vp].threads[t+ht].cpuset, core_tab[c]);
+                if( core_tab[c] > -1 ) {  /* no valid core left in the list: the thread stays unbound */
+                    HWLOC_SET(parsec_vpmap[vp].threads[t+ht].cpuset, core_tab[c]);
+                }
                 parsec_vpmap[vp].threads[t+ht].ht = (nbht > 1 && core_tab[c] > -1) ? ht : -1;
             }
             c++;
